@@ -127,7 +127,7 @@ def initSys (o : AvObj) (todos : List (List Nat)) : Sys :=
 /-- levels fetched by a query: `count n`, `of_length n`, `σ in av` fetch one level;
     `up_to_length n` fetches `0 … n` -/
 def queryLevels (kind : String) (n : Nat) : List Nat :=
-  if kind == "U" then List.range (n + 1) else [n]
+  if kind == "U" || kind == "P" then List.range (n + 1) else [n]
 
 /-- a fair canonical schedule realising a given order of lock acquisitions: the thread whose
     turn it is runs until its read is done (`fuel` steps each) -/
